@@ -568,6 +568,7 @@ int main(int argc, char **argv)
         snprintf(kb, sizeof kb, "%s", KIND); at = strchr(kb, '@');
         if (at) { snprintf(KSUF, sizeof KSUF, "%s", at); len = atoi(at + 1); *at = 0; KIND = kb; }
         if (len > 1100) len = 1100;
+        if (len == 0) len = 115;       /* the decorated name "<name>_p_sem_object" is then exactly two hash blocks long (block boundaries of the key derivation) */
         for (k = 0; k < 2; k++) {
             n = snprintf(uname[k], sizeof uname[k], "vfh_%d_a_long_common_prefix_of_more_than_fifty_characters_xxxxxxxxxx_", (int)getpid());
             while (n < len - 1) { uname[k][n] = (char)('a' + n % 26); n++; }
